@@ -16,6 +16,9 @@ CLAIMS = {
             "Every schedule (<= deviation bound) of 1-2 submitter threads racing one shutdown() over every prior-future state is executed on the real CancelOnShutdownExecutor; the sweep-coverage oracle is evaluated on each.",
             "DESIGN.md section 6 C10"),
 }
+CLAIMS["C04"] = ("stateless model checking of the real code: delay-bounded exhaustive schedule enumeration; wait-for-graph analysis of every final state",
+    "Every schedule (<= deviation bound, synchronisation-operation granularity) of every 2-thread client program over {submit, nested submit, cancel, add_done_callback, nested callback, result, shutdown} on each executor layer and four stacks, over sync / thread-pool / manual bases, is executed on the real code; a thread blocked for ever on a lock or join (cycle, self-edge, dead holder) is a violation.",
+    "DESIGN.md section 6 C04")
 NOT_YET = {}
 
 props = [json.loads(l) for l in open(os.path.join(HERE, "properties.jsonl"))]
